@@ -77,11 +77,11 @@ fn histories(alpha: &[usize], depth: usize, out: &mut Vec<Vec<usize>>) {
 pub fn run(args: &Args, rep: &mut Report) {
     let t = args.thorough();
     let modes = subject::primary_modes();
-    let full = if t { 65 * 1024 + 1 } else { 17 * 1024 + 1 };
+    let full = if t { 160 * 1024 + 1 } else { 65 * 1024 + 1 };
     let mut lens: Vec<usize> = (0..=full).collect();
     lens.extend(crate::c01::lite_lengths().into_iter().filter(|l| *l > full));
     lens.extend([100 * 1024, 128 * 1024 + 1]);
-    let max = 200 * 1024;
+    let max = 400 * 1024;
     // work items: (mode, kind)
     let mut work: Vec<(ModeSpec, u32)> = vec![];
     for m in &modes {
@@ -103,7 +103,7 @@ pub fn run(args: &Args, rep: &mut Report) {
             }
             1 => {
                 let mut hs = vec![];
-                histories(&FINE, if t { 4 } else { 3 }, &mut hs);
+                histories(&FINE, if t { 5 } else { 4 }, &mut hs);
                 for h in &hs {
                     run_history(m, &data, h, &[64], &mut oracle, local);
                     if h.len() >= 2 {
@@ -114,7 +114,7 @@ pub fn run(args: &Args, rep: &mut Report) {
             }
             2 => {
                 let mut hs = vec![];
-                histories(&COARSE, 3, &mut hs);
+                histories(&COARSE, if t { 4 } else { 3 }, &mut hs);
                 for h in &hs {
                     run_history(m, &data, h, &[32], &mut oracle, local);
                     if h.len() >= 2 {
@@ -136,7 +136,7 @@ pub fn run(args: &Args, rep: &mut Report) {
     rep.merge(r);
     vectors(rep);
     rep.configs.push(subject::config_json());
-    rep.rule = format!("reference_impl::Hasher in three modes: single update of every length 0..={} (+ lattice) with 32 and 131 output bytes; every history of <= {} updates over the fine alphabet and <= 3 over the coarse alphabet; every output length 0..=200 and 1024/1025/4099 on six inputs; every field of test_vectors.json (key, context, 35 lengths, 3 x 131 bytes, input pattern) against the spec model and directly against the optimized crate and the reference implementation; non-trivial = distinct cases with >= 2 updates, or distinct lengths", full, if t { 4 } else { 3 });
+    rep.rule = format!("reference_impl::Hasher in three modes: single update of every length 0..={} (+ lattice) with 32 and 131 output bytes; every history of <= {} updates over the fine alphabet and <= 3 (4 thorough) over the coarse alphabet; every output length 0..=200 and 1024/1025/4099 on six inputs; every field of test_vectors.json (key, context, 35 lengths, 3 x 131 bytes, input pattern) against the spec model and directly against the optimized crate and the reference implementation; non-trivial = distinct cases with >= 2 updates, or distinct lengths", full, if t { 5 } else { 4 });
     rep.assumptions.push("content restricted to stream A (the published vectors use exactly this pattern)".into());
 }
 
